@@ -1,0 +1,22 @@
+//go:build verif
+
+package px
+
+// Verification hook (build tag verif): the structured form of the result of the type-mismatch describer.
+// DescribeMismatch returns text only; the check compares kinds, paths and the types a mismatch carries.
+
+// VerifPathElement is one element of the path of a mismatch. Type is the path type ("" for the subject, "entry",
+// "key of entry", "index", "variant", "parameter", "return", "block", "signature")
+type VerifPathElement struct{ Type, Key string }
+
+// VerifMismatch is one mismatch
+type VerifMismatch struct {
+	Class    string             // the mismatch class
+	Path     []VerifPathElement // its path
+	Key      string             // the key of a missingKey, extraneousKey or unresolvedTypeReference
+	Expected Type               // the expected type of an expected/actual mismatch (nil otherwise)
+	Actual   Type               // the actual type of an expected/actual mismatch (nil otherwise)
+}
+
+// VerifDescribe is installed by package internal: what DescribeMismatch(name, expected, actual) formats
+var VerifDescribe func(name string, expected, actual Type) []VerifMismatch
